@@ -5,3 +5,4 @@ import ArcheModel.Events
 import ArcheModel.Query
 import ArcheModel.Ops
 import ArcheModel.Driver
+import ArcheModel.GenPrelude
